@@ -526,22 +526,39 @@ def render_fn(doc, it, parent, d, relfile, report, twin=False):
             rw["R6"] = rw.get("R6", 0) + 1
         # matches!, vec!, etc. are left as they are
     # R15: Verus rejects `continue` inside a for-loop.  `for .. { ..; if c { A; continue; } B }`  ==>  `for .. { ..; if c { A } else { B } }`
+    #      and  `for .. { ..; let P = E else { continue; }; B }`  ==>  `for .. { ..; if let P = E { B } }`
     for lp in body["loops"]:
         if lp["kind"] != "for":
             continue
         inside = [st for st in body["stmts"] if lp["body_open"] < st["span"][0] and st["span"][1] < lp["span"][1]]
         for c in [st for st in inside if st["norm"] == "continue;"]:
-            holder = [st for st in inside if st["block_open"] == lp["body_open"] and st["span"][0] < c["block_open"] < st["span"][1]
-                      and st["norm"].startswith("if ")]
+            # a `continue` belongs to the innermost loop around it
+            inner = [l2 for l2 in body["loops"] if l2["body_open"] < c["span"][0] and c["span"][1] < l2["span"][1]]
+            if min(inner, key=lambda l2: l2["span"][1] - l2["body_open"]) is not lp:
+                continue
+            direct = [st for st in inside if st["block_open"] == lp["body_open"] and st["span"][0] < c["block_open"] < st["span"][1]]
             last_in_block = all(o["span"][1] <= c["span"][0] for o in inside if o["block_open"] == c["block_open"] and o is not c)
-            # the block holding `continue;` must be the then-block of an else-less `if` that is a direct statement of the loop body
-            tail = src[c["span"][1]:holder[0]["span"][1]].decode() if holder else ""
-            if len(holder) != 1 or not last_in_block or tail.strip() != "}":
-                raise SpliceError("%s: `continue` in a for-loop outside the supported shape (R15)" % it["path"])
-            ed.replace(c["span"][0], c["span"][1], "")
-            ed.insert(holder[0]["span"][1], " else {", 4)
-            ed.insert(lp["span"][1] - 1, "}\n", 5)
-            rw["R15"] = rw.get("R15", 0) + 1
+            holder = [st for st in direct if st["norm"].startswith("if ")]
+            letelse = [st for st in direct if st["norm"].startswith("let ")]
+            if len(holder) == 1 and last_in_block and src[c["span"][1]:holder[0]["span"][1]].decode().strip() == "}":
+                # the block holding `continue;` is the then-block of an else-less `if` that is a direct statement of the loop body
+                ed.replace(c["span"][0], c["span"][1], "")
+                ed.insert(holder[0]["span"][1], " else {", 4)
+                ed.insert(lp["span"][1] - 1, "}\n", 5)
+                rw["R15"] = rw.get("R15", 0) + 1
+                continue
+            if len(letelse) == 1 and last_in_block:
+                st = letelse[0]
+                txt = src[st["span"][0]:st["span"][1]].decode()
+                m = re.match(r"^let\b(.*)\belse\s*\{\s*continue;\s*\}\s*;\s*$", txt, re.S)
+                if m and "else" not in m.group(1).split("=", 1)[0]:
+                    k = txt.rindex("else", 0, c["span"][0] - st["span"][0])
+                    ed.insert(st["span"][0], "if ", -3)
+                    ed.replace(st["span"][0] + k, st["span"][1], "{")
+                    ed.insert(lp["span"][1] - 1, "}\n", 5)
+                    rw["R15"] = rw.get("R15", 0) + 1
+                    continue
+            raise SpliceError("%s: `continue` in a for-loop outside the supported shape (R15)" % it["path"])
     # R14
     if d.boolops:
         for k, op in enumerate(body["assignops"]):
